@@ -62,11 +62,11 @@ fn central_angle(a: P, b: P) -> f64 {
 
 struct Space<'a> {
     name: &'a str,
-    dist: &'a dyn Fn(Point<f64>, Point<f64>) -> f64,
-    bearing: &'a dyn Fn(Point<f64>, Point<f64>) -> f64,
-    dest: &'a dyn Fn(Point<f64>, f64, f64) -> Point<f64>,
-    ratio: &'a dyn Fn(Point<f64>, Point<f64>, f64) -> Point<f64>,
-    length: &'a dyn Fn(&LineString<f64>) -> f64,
+    dist: Box<dyn Fn(Point<f64>, Point<f64>) -> f64 + 'a>,
+    bearing: Box<dyn Fn(Point<f64>, Point<f64>) -> f64 + 'a>,
+    dest: Box<dyn Fn(Point<f64>, f64, f64) -> Point<f64> + 'a>,
+    ratio: Box<dyn Fn(Point<f64>, Point<f64>, f64) -> Point<f64> + 'a>,
+    length: Box<dyn Fn(&LineString<f64>) -> f64 + 'a>,
 }
 
 impl Property for C16 {
@@ -133,10 +133,18 @@ impl Property for C16 {
         }
         let custom_h = HaversineMeasure::new(c.radius);
         let sphere_g = GeodesicMeasure::new(c.radius, 0.0);
+        let bessel = GeodesicMeasure::new(6377397.155, 1.0 / 299.1528128);
+        let mars_g = GeodesicMeasure::new(3396190.0, 1.0 / 169.8);
+        let mars_h = HaversineMeasure::new(3389500.0);
         let spaces: Vec<Space> = vec![
-            Space { name: "Haversine", dist: &|p, q| Haversine.distance(p, q), bearing: &|p, q| Haversine.bearing(p, q), dest: &|p, t, d| Haversine.destination(p, t, d), ratio: &|p, q, r| Haversine.point_at_ratio_between(p, q, r), length: &|l| Haversine.length(l) },
-            Space { name: "Geodesic", dist: &|p, q| Geodesic.distance(p, q), bearing: &|p, q| Geodesic.bearing(p, q), dest: &|p, t, d| Geodesic.destination(p, t, d), ratio: &|p, q, r| Geodesic.point_at_ratio_between(p, q, r), length: &|l| Geodesic.length(l) },
-            Space { name: "Rhumb", dist: &|p, q| Rhumb.distance(p, q), bearing: &|p, q| Rhumb.bearing(p, q), dest: &|p, t, d| Rhumb.destination(p, t, d), ratio: &|p, q, r| Rhumb.point_at_ratio_between(p, q, r), length: &|l| Rhumb.length(l) },
+            Space { name: "Haversine", dist: Box::new(|p, q| Haversine.distance(p, q)), bearing: Box::new(|p, q| Haversine.bearing(p, q)), dest: Box::new(|p, t, d| Haversine.destination(p, t, d)), ratio: Box::new(|p, q, r| Haversine.point_at_ratio_between(p, q, r)), length: Box::new(|l| Haversine.length(l)) },
+            Space { name: "Geodesic", dist: Box::new(|p, q| Geodesic.distance(p, q)), bearing: Box::new(|p, q| Geodesic.bearing(p, q)), dest: Box::new(|p, t, d| Geodesic.destination(p, t, d)), ratio: Box::new(|p, q, r| Geodesic.point_at_ratio_between(p, q, r)), length: Box::new(|l| Geodesic.length(l)) },
+            // custom figures (every method must use the measure's own parameters, not the WGS84 / mean-radius defaults):
+            // Bessel 1841, a Mars-like ellipsoid (flattening 1/169.8), a sphere of Mars' radius
+            Space { name: "Geodesic(Bessel1841)", dist: Box::new(|p, q| bessel.distance(p, q)), bearing: Box::new(|p, q| bessel.bearing(p, q)), dest: Box::new(|p, t, d| bessel.destination(p, t, d)), ratio: Box::new(|p, q, r| bessel.point_at_ratio_between(p, q, r)), length: Box::new(|l| bessel.length(l)) },
+            Space { name: "Geodesic(Mars)", dist: Box::new(|p, q| mars_g.distance(p, q)), bearing: Box::new(|p, q| mars_g.bearing(p, q)), dest: Box::new(|p, t, d| mars_g.destination(p, t, d)), ratio: Box::new(|p, q, r| mars_g.point_at_ratio_between(p, q, r)), length: Box::new(|l| mars_g.length(l)) },
+            Space { name: "Haversine(r=3389500)", dist: Box::new(|p, q| mars_h.distance(p, q)), bearing: Box::new(|p, q| mars_h.bearing(p, q)), dest: Box::new(|p, t, d| mars_h.destination(p, t, d)), ratio: Box::new(|p, q, r| mars_h.point_at_ratio_between(p, q, r)), length: Box::new(|l| mars_h.length(l)) },
+            Space { name: "Rhumb", dist: Box::new(|p, q| Rhumb.distance(p, q)), bearing: Box::new(|p, q| Rhumb.bearing(p, q)), dest: Box::new(|p, t, d| Rhumb.destination(p, t, d)), ratio: Box::new(|p, q, r| Rhumb.point_at_ratio_between(p, q, r)), length: Box::new(|l| Rhumb.length(l)) },
         ];
         let ctx = || format!("a={:?} b={:?} r={} central angle {ang} deg", c.a, c.b, c.ratio);
         for sp in &spaces {
